@@ -26,6 +26,10 @@ type c08Conn struct {
 	// unsupported / fin) leave in ONE write, so the connection ends while the
 	// handlers have only just been dispatched.
 	Pipelined bool `json:"pipelined,omitempty"`
+	// Stall (mode stop, in-flight writing): the client also sends an Unbind
+	// behind its requests and then reads NOTHING until well after Stop was
+	// called: the read loop has ended, handlers are parked in Write.
+	Stall bool `json:"stall,omitempty"`
 }
 
 type c08Case struct {
@@ -209,6 +213,9 @@ func c08Exec(c c08Case, st *lab.Stats) *lab.Fail {
 			if cs.Pipelined && c.Mode == "normal" {
 				buf = append(buf, endingBytes(cs.Ending, base)...)
 			}
+			if cs.Stall && c.Mode == "stop" && cs.InFlight == "writing" {
+				buf = append(buf, simpleReq("unbind", base+99).Bytes()...)
+			}
 			_ = cl.Send(buf)
 		}
 	}
@@ -277,6 +284,10 @@ func c08Exec(c c08Case, st *lab.Stats) *lab.Fail {
 				_ = rawConn(cl.C).Close()
 				ends[tag] = endInfo{"client-closed", lab.NextSeq()}
 				return
+			case c.Mode == "stop" && cs.Stall && cs.InFlight == "writing":
+				// said goodbye already, reads nothing for a while: only the server's own
+				// shutdown handling can free the handlers that are parked in Write
+				time.Sleep(300 * time.Millisecond)
 			case c.Mode == "stop":
 				// the read loop notices the shutdown only between requests: keep
 				// sending one more request until the server ends the connection
@@ -474,7 +485,7 @@ func endingName(mode, ending string) string {
 func TestC08(t *testing.T) {
 	lab.Prop[c08Case]{
 		ID: "C08", Part: "endings",
-		Rule: "rapid scenarios: 1..12 (occasionally 32) connections over plain/TLS/StartTLS, each with 0..4 handlers in flight (blocked on a gate that opens 0..60 ms AFTER the ending was triggered, or writing 3 MB to a client that does not read), ending by client FIN, client RST, Unbind, malformed frame, unsupported operation, mid-frame disconnect, panicking unbind handler (recovered), server read timeout, server write timeout (handlers' responses fail, then Unbind), or server Stop followed by more requests; the in-flight requests and the ending may leave in ONE write (handlers only just dispatched when the connection ends); oracle = exactly one OnClose per connection with the ConnectionID its handlers saw, stamped after every handler exit of that connection; for server-initiated endings the client's EOF/RST is also stamped after every handler exit; afterwards no connection goroutine and no socket descriptor remains (garbage collector disabled during the scenario so that a finalizer cannot hide a forgotten close); non-trivial = >= 1 handler in flight when the ending happened; distinct by hash",
+		Rule: "rapid scenarios: 1..12 (occasionally 32) connections over plain/TLS/StartTLS, each with 0..4 handlers in flight (blocked on a gate that opens 0..60 ms AFTER the ending was triggered, or writing 3 MB to a client that does not read), ending by client FIN, client RST, Unbind, malformed frame, unsupported operation, mid-frame disconnect, panicking unbind handler (recovered), server read timeout, server write timeout (handlers' responses fail, then Unbind), or server Stop followed by more requests (or, having sent an Unbind, by a client that reads nothing for a while); the in-flight requests and the ending may leave in ONE write (handlers only just dispatched when the connection ends); oracle = exactly one OnClose per connection with the ConnectionID its handlers saw, stamped after every handler exit of that connection; for server-initiated endings the client's EOF/RST is also stamped after every handler exit; afterwards no connection goroutine and no socket descriptor remains (garbage collector disabled during the scenario so that a finalizer cannot hide a forgotten close); non-trivial = >= 1 handler in flight when the ending happened; distinct by hash",
 		Gen: func(t *rapid.T) c08Case {
 			c := c08Case{
 				Mode:        rapid.SampledFrom([]string{"normal", "normal", "normal", "normal", "normal", "readtimeout", "writetimeout", "stop"}).Draw(t, "mode"),
@@ -492,6 +503,7 @@ func TestC08(t *testing.T) {
 					Transport: rapid.SampledFrom([]string{"plain", "plain", "tls", "starttls"}).Draw(t, "transport"),
 				}
 				cs.Pipelined = rapid.IntRange(0, 2).Draw(t, "pipelined") == 0
+				cs.Stall = c.Mode == "stop" && cs.InFlight == "writing" && rapid.Bool().Draw(t, "stall")
 				if (c.Mode == "readtimeout" || c.Mode == "writetimeout") && cs.InFlight == "writing" {
 					cs.InFlight = "blocked"
 				}
